@@ -388,10 +388,10 @@ MUTANTS = [
      "file": "libs/log/impl/src/log/impl/find_or_create_child.cpp",
      "old": "fcppt::log::detail::context_tree_node{_name, _node.get().value().level()});",
      "new": "fcppt::log::detail::context_tree_node{_name, _node.get().parent().has_value() ? _node.get().parent().get_unsafe().get().value().level() : _node.get().value().level()});"},
-    {"id": "C19-g", "prop": "C19", "fault": False, "expect": "model (sequential)",
-     "file": CTX,
-     "old": "                   [_cur] { return std::make_pair(fcppt::loop::break_, _cur); },",
-     "new": "                   [_cur, root = this->root()] { return std::make_pair(fcppt::loop::break_, _cur.get().empty() ? root : _cur); },"},
+    {"id": "C19-g", "prop": "C19", "fault": False, "expect": "model (sequential): 'no level' stored as fatal",
+     "file": "libs/log/impl/src/log/impl/convert_level.cpp",
+     "old": "          fcppt::enum_::size<fcppt::log::level>::value)),",
+     "new": "          fcppt::enum_::size<fcppt::log::level>::value - 1U)),"},
     {"id": "C19-h", "prop": "C19", "fault": False, "expect": "enabled / emission",
      "file": "libs/log/src/log/object.cpp",
      "old": "        return _level >= _enabled_level;",
